@@ -174,6 +174,17 @@ fn load_relevant_coins<C: ContentAddrStore>(
         if !tx.is_well_formed() {
             return Err(StateError::MalformedTx);
         }
+        // `Transaction::total_outputs` adds the fee to the MEL outputs with plain u128 addition;
+        // 255 outputs of MAX_COINVAL plus a fee of MAX_COINVAL reach exactly 2^128.
+        if tx
+            .outputs
+            .iter()
+            .filter(|out| out.denom == Denom::Mel)
+            .try_fold(tx.fee.0, |sum, out| sum.checked_add(out.value.0))
+            .is_none()
+        {
+            return Err(StateError::MalformedTx);
+        }
 
         let coins_to_add = output_coins_from_tx(tx, this.height);
         if !coins_to_add.is_empty() {
